@@ -59,6 +59,8 @@ EXTRACT_FN_PROGRAMS = [
     "fun sign(n: Int): String {\n  if n < 0 {\n    let m = 0 - n\n    \"minus \" ^ string_repr(m * 2)\n  } else if n == 0 {\n    \"zero\"\n  } else if (n + 1) > 3 {\n    let q = n + 1\n    \"plus \" ^ string_repr(q)\n  } else {\n    \"small\"\n  }\n}\nprintln(sign(0 - 3))\nprintln(sign(0))\nprintln(sign(5))\nprintln(sign(1))\n",
     # comments that end in a keyword right before a statement; `else` in identifiers and strings
     "fun f(n: Int): Int {\n  // nothing else\n  let r = g(n)\n  // or else\n  if r > 1 { r } else { 0 }\n}\nfun g(orelse: Int): Int {\n  let s = \"else\"\n  orelse + s.len()\n}\nprintln(string_repr(f(1)))\n",
+    # multi-line string literals inside nested blocks: the selected text must be copied as it is
+    "fun letter(name: String, n: Int): String {\n  if n > 0 {\n      let head = \"Dear \" ^ name ^ \",\n      you have items:\"\n      head ^ \" \" ^ string_repr(n)\n  } else {\n    for i in [1] {\n        println(\"none\n        at all \" ^ string_repr(i))\n    }\n    \"\"\n  }\n}\nprintln(letter(\"bob\", 3))\nprintln(letter(\"amy\", 0))\n",
     # blocks that bind and then go out of scope, one after the other
     "fun w(a: Int, flag: Bool): Int {\n  if flag {\n    let a = a + 100\n    println(string_repr(a))\n  }\n  for z in [a] {\n    let flag = z\n    println(string_repr(flag))\n  }\n  if flag { a } else { 0 - a }\n}\nprintln(string_repr(w(1, True)))\nprintln(string_repr(w(2, False)))\n",
 ]
